@@ -101,6 +101,24 @@ func WiringRule(w *World, r *Result, rule string, only func(method string) bool)
 		sort.Strings(ps)
 		for _, p := range ps {
 			id := dc.Method + "." + p + "@" + dc.Fn.Name()
+			// "is the result used": the handler passes on what it was told, nothing else
+			if p == "valueUsed" {
+				hasParam := false
+				for _, fp := range dc.Fn.Params {
+					if fp.Name() == "valueUsed" {
+						hasParam = true
+					}
+				}
+				if hasParam {
+					key := "wire:" + id
+					if strings.Contains(fmt.Sprint(dc.Args[p]), dc.Fn.Name()+".valueUsed") {
+						r.Ok(rule, key, w.Pos(dc.Call.Pos()), "the handler's own valueUsed flag is passed on")
+					} else {
+						r.Bad(rule, key, w.Pos(dc.Call.Pos()), fmt.Sprintf("%s does not pass its own valueUsed flag to %s (got %s): a result is materialised although unused, or dropped although used", dc.Fn.Name(), dc.Method, fmt.Sprint(dc.Args[p])))
+					}
+				}
+				continue
+			}
 			want, ok := wiringTable[id]
 			if !ok {
 				continue
